@@ -117,6 +117,7 @@ def parseInl (j : Json) : Except String Inl := do
   else if k == "esc" then pure (.esc (← str j "c"))
   else if k == "sp" then pure .sp
   else if k == "nl" then pure .nl
+  else if k == "escnl" then pure .escnl
   else if k == "emph" then pure (.emph (← str j "s"))
   else if k == "strong" then pure (.strong (← str j "s"))
   else if k == "literal" then pure (.literal (← str j "s"))
